@@ -1,8 +1,12 @@
 use crate::runner::Prop;
+pub mod c02;
+pub mod c09;
+pub mod c11;
+pub mod c12;
 pub mod c17;
 
 pub fn all() -> Vec<&'static Prop> {
-    vec![&c17::PROP]
+    vec![&c02::PROP, &c11::PROP, &c12::PROP, &c09::PROP, &c17::PROP]
 }
 
 pub fn worker_main(kind: &str, _args: &[String]) -> i32 {
